@@ -115,14 +115,27 @@ def parse_result(out):
     return json.loads(s)
 
 
-def validate_traces(module, consts, trace_files, timeout=900, parallel=16):
+def _validator_heap(parallel):
+    """Heap cap per validating JVM: the tlc wrapper's default (25% of RAM each) lets
+    16 parallel validators of large shards outgrow the machine (OOM killer, rc=-9)."""
+    try:
+        kb = int(next(l for l in open("/proc/meminfo") if l.startswith("MemTotal")).split()[1])
+    except Exception:
+        kb = 16 * 1024 * 1024
+    mb = max(1024, int(kb / 1024 * 0.6 / max(1, parallel)))
+    return "-Xmx%dm" % mb
+
+
+def validate_traces(module, consts, trace_files, timeout=900, parallel=14):
     """Validate each ndjson shard with its own TLC process.
     Returns list of dict(file, result|None, out, rc, wall)."""
+    heap = _validator_heap(parallel)
+
     def one(tf):
         c = dict(consts)
         c["TraceFile"] = "trace.ndjson"
         r = run_tlc(module, dict(spec="TraceSpec", consts=c, view="TraceView"),
-                    workers=1, timeout=timeout, files={tf: "trace.ndjson"})
+                    workers=1, timeout=timeout, files={tf: "trace.ndjson"}, java_opts=heap)
         return dict(file=tf, result=parse_result(r["out"]), out=r["out"], rc=r["rc"],
                     wall=r["wall"], timed_out=r["timed_out"])
     with cf.ThreadPoolExecutor(max_workers=parallel) as ex:
